@@ -1,4 +1,4 @@
 SPECIFICATION Spec
-CONSTANTS PairSrc = "file" CtxU = "ops3" MaxFlow = 3 KeyU = "six" Writ = "ends"
+CONSTANTS PairSrc = "file" CtxU = "ops3" MaxFlow = 3 KeyU = "six" Writ = "ends" NObj = 0
 INVARIANT EmitFlow
 CHECK_DEADLOCK FALSE
